@@ -4,7 +4,7 @@ from vt import chartgen as cg, seqrun
 ID = 'C01'
 RULE = ('random state trees (shapes rand/chain/bushy/two/comb/flat, up to 40 states, depth up to ~35) with random '
         'initial transitions to any strict descendant, random reactions (handle / transition to any state / guard) '
-        'and random event scripts on the plain HsmEventProcessor; every dispatch is compared with an independent '
+        'and random event scripts on the plain HsmEventProcessor (every fifth case on InstrumentedHsmEventProcessor or HsmWithQueues, instrumented or not, handlers under spy_on or plain, stepped through dispatch()); every dispatch is compared with an independent '
         'reference model (exact exit*/entry*/init list and rest state); in every second case client code calls is_in / '
         'child_state on random states between two events, and in every third case entry / exit / init ACTIONS ask is_in / child_state themselves, in the middle of the step (the IS_IN / history idioms). distinct_nontrivial = distinct '
         '(topology class a-h, depth of S, depth of T, depth of current state, init-chain length) tuples among '
@@ -12,7 +12,7 @@ RULE = ('random state trees (shapes rand/chain/bushy/two/comb/flat, up to 40 sta
 CASES = {'quick': 30000, 'thorough': 600000}
 BUDGET = {'quick': 150, 'thorough': 300}
 REQUIRE = {'transitions': 1000, 'topo_a': 1, 'topo_b': 1, 'topo_c': 1, 'topo_d': 1, 'topo_e': 1,
-           'topo_f': 1, 'topo_g': 1, 'topo_h': 1, 'init_chain_after_deep_target': 1, 'state_queries_made_by_actions': 20000}
+           'topo_f': 1, 'topo_g': 1, 'topo_h': 1, 'init_chain_after_deep_target': 1, 'state_queries_made_by_actions': 20000, 'runs_on_instrumented_or_queued_hosts': 3000}
 ASSUME = ['generated charts are well-formed: handlers return a status, parents form a tree, inits target strict descendants',
           'the reference model in vt/chartgen.py is the reading of the statement (cross-checked three ways against plain and instrumented hosts)']
 PROPS = ('C01',)
@@ -23,7 +23,15 @@ def run_case(ctx, n):
   spec = cg.gen_spec(rng, clause_queries=n % 3 == 0, **seqrun.pick_params(rng, ctx.tier))
   start = rng.randrange(spec['n'])
   script = cg.gen_script(rng, spec, rng.randint(10, 60))
-  for prop, key, what, wit in seqrun.run_plain(ctx, rng, spec, start, script, query_rng=ctx.rng('queries', n) if n % 2 else None):
+  kw = {}
+  if n % 5 == 4:
+    # the hosts built on the same event processor, stepped through dispatch(): InstrumentedHsmEventProcessor and HsmWithQueues
+    # (instrumented or not), handlers under spy_on or plain; the client queries then include current_state()
+    from miros.hsm import InstrumentedHsmEventProcessor, HsmWithQueues
+    host, hk = rng.choice([(InstrumentedHsmEventProcessor, {}), (HsmWithQueues, {'instrumented': True}), (HsmWithQueues, {'instrumented': False})])
+    kw = dict(host_cls=host, host_kwargs=hk, spied=rng.random() < 0.5)
+    ctx.count('runs_on_instrumented_or_queued_hosts')
+  for prop, key, what, wit in seqrun.run_plain(ctx, rng, spec, start, script, query_rng=ctx.rng('queries', n) if n % 2 else None, **kw):
     if prop in PROPS or key.startswith('C0x') and 'C01' in PROPS:
       ctx.violation(key, what, wit)
     else:
